@@ -22,10 +22,10 @@ import (
 )
 
 type c08Case struct {
-	Schema  *jv.V   `json:"schema"`
-	Draft7  bool    `json:"draft7"`
-	Inst    *jv.V   `json:"instance"`
-	Choices [][]int `json:"choices"`
+	Schema  *jv.V    `json:"schema"`
+	Draft7  bool     `json:"draft7"`
+	Inst    *jv.V    `json:"instance"`
+	Choices [][]int  `json:"choices"`
 	Reprs   []string `json:"reprs,omitempty"`
 }
 
@@ -127,6 +127,7 @@ func init() {
 		if err := json.Unmarshal(raw, &c); err != nil {
 			return failf("REPLAY-HARNESS-ERROR: %v", err)
 		}
+		fixNil(&c.Inst)
 		fl, herr := checkC08(&c, nil)
 		if herr != "" {
 			return failf("REPLAY-HARNESS-ERROR: %s", herr)
